@@ -46,6 +46,25 @@ class Fail:
 
 
 EXTRA = {'validated': 0}
+FRESH = []
+
+
+def fresh_int(name):
+    """a new symbolic int created inside a harness; its model value is added to the
+    witness of the path under `name`"""
+    space = context_statespace()
+    with NoTracing():
+        v = SymbolicInt(name + space.uniq(), int)
+    FRESH.append((name, v))
+    return v
+
+
+def fresh_str(name):
+    space = context_statespace()
+    with NoTracing():
+        v = LazyIntSymbolicStr(name + space.uniq(), str)
+    FRESH.append((name, v))
+    return v
 
 # ---------------------------------------------------------------- solver accounting
 
@@ -157,6 +176,19 @@ def must_hold(cond_expr):
         return str(r) == 'unsat'
 
 
+def counter_witness(cond_expr):
+    """model values of the arguments / fresh symbols for which cond_expr is FALSE on the
+    current path (None if cond_expr is valid)"""
+    space = context_statespace()
+    with NoTracing():
+        r = _orig_check(space.solver, z3.Not(cond_expr))
+        SOLVER['queries'] += 1
+        if str(r) != 'sat':
+            return None
+        m = space.solver.model()
+        return {k: _peek(v, m) for k, v in FRESH}
+
+
 # ---------------------------------------------------------------- exploration
 
 def _gen_args(sig, space):
@@ -229,6 +261,7 @@ def explore(fn, budget_s=60.0, per_path_s=20.0, max_paths=10**9, validate=None,
         with (condition_parser(options.analysis_kind), Patched(), COMPOSITE_TRACER,
               NoTracing(), StateSpaceContext(space)):
             try:
+                del FRESH[:]
                 pre_args = _gen_args(sig, space)
                 args = deepcopyext(pre_args, CopyMode.REGULAR, {})
                 ret = None
@@ -260,6 +293,8 @@ def explore(fn, budget_s=60.0, per_path_s=20.0, max_paths=10**9, validate=None,
                             verdict = 'VIOLATED ' + str(_peek(ret, None))[:400]
                 model = _model()
                 witness = {k: _peek(v, model) for k, v in pre_args.arguments.items()}
+                for k, v in FRESH:
+                    witness[k] = _peek(v, model)
                 if isinstance(ret, Fail) and ret.witness:
                     witness.update(ret.witness)
                 ex.paths += 1
